@@ -22,23 +22,24 @@ Notation tb := (tb A).
 Notation column := (dtype * list A)%type.
 Variable dt : dtype.
 Variable conv : dtype -> list A -> list A.
+Variable int_key : bool.
 Hypothesis conv_same : forall c, conv dt c = c.       (* astype to the dtype a column already has changes nothing *)
 
 Definition convC (x : column) : column := (dt, conv (fst x) (snd x)).
 Definition astypeF (qs : list Z) (j : Z) (x : column) : list column := [if memz j qs then convC x else x].
 
-Lemma astype_block_columns (b : block) : block_columns (astype_block dt conv b) = map convC (block_columns b).
+Lemma astype_block_columns (b : block) : block_columns (astype_block dt conv int_key b) = map convC (block_columns b).
 Proof. unfold block_columns, astype_block, convC. cbn [b_dtype b_cols]. rewrite !map_map. reflexivity. Qed.
 
 Fixpoint apieces (b : block) (psl : Z) (rs : list (Z * nat)) : list block :=
   match rs with
   | [] => []
   | (a, m) :: rs' => (if a >? psl then [gap b psl a] else []) ++
-                     astype_block dt conv (gap b a (a + Z.of_nat m)) :: apieces b (a + Z.of_nat m) rs'
+                     astype_block dt conv int_key (gap b a (a + Z.of_nat m)) :: apieces b (a + Z.of_nat m) rs'
   end.
 
 Lemma astype_inner_same (b : block) (k : Z) rest : dtype_eqb dt (b_dtype b) = true -> other_block k rest ->
-  forall rs psl, astype_inner dt conv b k (targets k rs ++ rest) psl = Ok (rest, [], psl).
+  forall rs psl, astype_inner dt conv int_key b k (targets k rs ++ rest) psl = Ok (rest, [], psl).
 Proof.
   intros Heq Hrest. induction rs as [|[a m] rs IH]; intros psl.
   - cbn [targets map app]. destruct rest as [|[tbi sl] rest']; [reflexivity|].
@@ -50,7 +51,7 @@ Qed.
 Lemma astype_inner_steady (b : block) (k : Z) rest : b_1d b = false -> dtype_eqb dt (b_dtype b) = false ->
   other_block k rest ->
   forall rs psl, runs_wf psl rs (width b) -> 0 <= psl ->
-  astype_inner dt conv b k (targets k rs ++ rest) psl = Ok (rest, apieces b psl rs, runs_end psl rs).
+  astype_inner dt conv int_key b k (targets k rs ++ rest) psl = Ok (rest, apieces b psl rs, runs_end psl rs).
 Proof.
   intros H1d Hne Hrest. induction rs as [|[a m] rs IH]; intros psl Hwf Hp.
   - cbn [targets map app apieces runs_end]. destruct rest as [|[tbi sl] rest']; [reflexivity|].
@@ -119,7 +120,7 @@ Qed.
 Lemma astype_block_correct (b : block) (k : Z) rest rs : wf_block b -> other_block k rest ->
   runs_wf 0 rs (width b) ->
   exists parts psl,
-    astype_inner dt conv b k (targets k rs ++ rest) 0 = Ok (rest, parts, psl) /\
+    astype_inner dt conv int_key b k (targets k rs ++ rest) 0 = Ok (rest, parts, psl) /\
     flat_map block_columns (astype_out b parts psl) = upd_from (astypeF (runs_elems rs)) 0 (block_columns b).
 Proof.
   intros [Hw H1d] Hrest Hwf.
@@ -145,7 +146,7 @@ Proof.
         -- unfold astype_out. rewrite E1d. cbn [negb andb is_nil flat_map]. rewrite app_nil_r.
            rewrite (upd_from_ext _ (fun _ x => [x])); [now rewrite upd_from_keep|].
            intros j x _. apply astypeF_keep. intros [].
-      * exists [astype_block dt conv b], 1. split.
+      * exists [astype_block dt conv int_key b], 1. split.
         -- unfold targets. cbn [map app]. rewrite target_of_run by lia. cbn [astype_inner].
            rewrite Z.eqb_refl, Heq, E1d. reflexivity.
         -- unfold astype_out. rewrite E1d. cbn [negb andb is_nil flat_map]. rewrite app_nil_r, astype_block_columns.
@@ -162,7 +163,7 @@ Qed.
 
 Lemma astype_walk_correct (t : tb) : wf_tb t -> forall k rss,
   Forall2 (fun b rs => runs_wf 0 rs (width b)) t rss ->
-  exists bs, astype_walk dt conv k t (map target_of (bundles_of k rss)) = Ok bs /\
+  exists bs, astype_walk dt conv int_key k t (map target_of (bundles_of k rss)) = Ok bs /\
              (t <> [] -> bs <> []) /\
              flat_map block_columns bs = by_runs astypeF t rss.
 Proof.
@@ -181,9 +182,9 @@ Qed.
 
 Theorem astype_blocks_refines (t : tb) (k : ckey) : wf_tb t -> t <> [] -> walk_dom k = true ->
   forall ps, key_positions k (Z.of_nat (length (flatten t))) = Ok ps ->
-  res_map flatten (M_astype_blocks dt conv t k) = S_astype_columns (flatten t) k dt conv.
+  res_map flatten (M_astype_blocks dt conv int_key t k) = S_astype_columns (flatten t) k dt conv.
 Proof.
-  intros Hwf Hne Hdom ps Ek. unfold M_astype_blocks, S_astype_columns. rewrite Ek.
+  intros Hwf Hne Hdom ps Ek. unfold M_astype_blocks, S_astype_columns, block_slices_for, Gen.Gen_c08.retain_key_order_astype_blocks. rewrite Ek.
   destruct (block_slices_asc_runs t k ps Hwf Hdom Ek) as (ps' & Hinc & Hsame & Hrange & Ets).
   rewrite Ets.
   destruct (astype_walk_correct t Hwf 0 (block_runs t ps') (block_runs_wf t ps' Hinc Hrange)) as (bs & Ebs & Hbs & Efl).
